@@ -17,6 +17,7 @@
 -/
 import GraphiqModel.Proofs.Compare
 import GraphiqModel.Proofs.CompareRepairNorm
+import GraphiqModel.Proofs.CompareRepairStab
 namespace Graphiq.C15
 open Graphiq Graphiq.Export Graphiq.Compare
 
@@ -277,6 +278,29 @@ theorem iso_normalised_sound (c1 c2 : Circuit) (h1 : WellFormed c1) (h2 : WellFo
     ∃ π, RenamedBy π (flatC c1) (flatC c2) ∧ SwapEquiv ((flat c1.ops).map (renOp π)) (flat c2.ops) := by
   obtain ⟨π, hπ⟩ := isoNorm2_sound c1 c2 (wellFormed_opOK c1 h1) (wellFormed_opOK c2 h2) h
   exact ⟨π, hπ, hπ.swapEquiv (flat_opOK _ _ (wellFormed_opOK c1 h1)) (flat_opOK _ _ (wellFormed_opOK c2 h2))⟩
+
+/-- **reported isomorphic ⇒ the same compiled stabilizer state up to the renaming** — in C13's verified stabilizer
+    semantics (`Commute.appG`: stabilizer group of a valid tableau on `ne + np` qubits plus the unread measurement outcomes;
+    gates by C07's `specGate`, measurements by `specMeasure`; that operations on disjoint registers commute there is
+    `C13.stabilizer_ops_on_disjoint_registers_commute`): for either form of the repaired comparison (as `compare` calls it,
+    or as the filters call it after normalisation), running the renamed executed operations of the first circuit and
+    running the executed operations of the second from any state give the same state, for every assignment of outcomes
+    to the measuring operations.  `toSOp` (Proofs/CompareRepairStab.lean) is the translation of an executed operation of
+    this model into an operation of C13's compile sequence: same class, same registers. -/
+theorem iso_sound_same_stabilizer_state (c1 c2 : Circuit) (h1 : WellFormed c1) (h2 : WellFormed c2)
+    (h : circuitIsIsomorphic2 c1 c2 = .ok true ∨ isoNormalised2 c1 c2 = .ok true) :
+    ∃ π, RenamedBy π (flatC c1) (flatC c2) ∧ ∀ (ne np : Nat) (s : Commute.GSt ne np),
+      Wire.runSeq (Commute.appG ne np) (((flat c1.ops).map (renOp π)).map toSOp) s =
+        Wire.runSeq (Commute.appG ne np) ((flat c2.ops).map toSOp) s := by
+  have key : ∃ π, RenamedBy π (flatC c1) (flatC c2) := by
+    rcases h with h | h
+    · obtain ⟨π, hπ⟩ := iso_sound c1 c2 h1 h2 h
+      exact ⟨π, hπ.flat⟩
+    · obtain ⟨π, hπ, _⟩ := iso_normalised_sound c1 c2 h1 h2 h
+      exact ⟨π, hπ⟩
+  obtain ⟨π, hπ⟩ := key
+  refine ⟨π, hπ, fun ne np s => ?_⟩
+  exact (hπ.swapEquiv (flat_opOK _ _ (wellFormed_opOK c1 h1)) (flat_opOK _ _ (wellFormed_opOK c2 h2))).same_stab_state ne np s
 
 /-- **`remove_redundant_circuits` with the repaired comparison keeps every distinct circuit** (the second half of the
     property, for the repaired function): the result is a sub-list of the input, and every circuit that is dropped is —
